@@ -35,6 +35,9 @@ def run(ctx):
         equal = rng.random() < 0.5
         n0 = rng.randint(1, 6)
         ss = [gen.series(rng, n0 if equal else rng.randint(1, 6), kind) for _ in range(n)]
+        scale = rng.choice([1.0, 1.0, 1.0, 1e-9, 1e-4])     # tiny magnitudes: distances far below absolute tolerances
+        if scale != 1.0:
+            ss = [[v * scale for v in s_] for s_ in ss]
         if n >= 3 and rng.random() < 0.5:
             ss[rng.randrange(n)] = list(ss[rng.randrange(n)])
         data = [np.array(s) for s in ss]
@@ -167,6 +170,9 @@ def run(ctx):
                 m3, _, _, _ = build()
                 res3 = m3.fit(data)
                 ctx.count("repeated_fits_checked")
+                if variant.startswith("tree") and len(model.linkage) != len(m3.linkage):
+                    ctx.violation("tree-malformed", reason="linkage of a repeated fit has %d rows, a fresh object %d"
+                                  % (len(model.linkage), len(m3.linkage)), **wit)
                 if res2 != res3 or res2 != res:
                     ctx.violation("history-dependence", first={str(k): sorted(v) for k, v in res.items()},
                                   second={str(k): sorted(v) for k, v in res2.items()},
